@@ -60,7 +60,7 @@ def gen_cfg(g, k):
     t = Target(coords)
     sampler = "blackjax_smc" if k % 8 == 7 else "smc"
     xpn = "jax" if sampler == "blackjax_smc" else ["numpy", "numpy", "torch", "jax"][k % 4]
-    cfg = recorded.default_cfg(g, target=t.describe(), sampler=sampler, xp=xpn, dtype=None if xpn != "torch" else "float64", n=int(g.integers(16, 36)))
+    cfg = recorded.default_cfg(g, target=t.describe(), sampler=sampler, xp=xpn, dtype=("float32" if k % 6 == 2 and sampler == "smc" else None if xpn != "torch" else "float64"), n=int(g.integers(16, 36)))
     cfg["kernel_steps"] = int(g.integers(1, 3))
     cfg["flow"] = {"truncate": bool(g.random() < 0.5), "widen": float(g.uniform(2.5, 4.5)), "shift": float(g.uniform(-1, 1))}
     sched = ["adaptive", "fixed", "cap", "floor", "ramp"][k % 5]
